@@ -339,7 +339,11 @@ def gen_nary(g, depth, ranged=False):
     if depth == 0 or g.random() < 0.3:
         l = p_c07.gen_leaf(g, positive=g.random() < 0.5); l['kind'] = 'full'; return l
     op = g.choice(['plus', 'product', 'plus', 'product', 'pow', 'trans'])
-    if op == 'trans': return {'op': 'trans', 'a': gen_nary(g, depth - 1, ranged), 'X': fc.grid(g, 0.0, 1.5)}
+    if op == 'trans':
+        if ranged and g.random() < 0.5:
+            # a negative shift takes the argument below its range: an explicit '>=0' (or '>0.5') range there must give 0, not the bare form
+            return {'op': 'trans', 'a': {'op': 'range', 'marker': g.choice(['>=', '>']), 'start': g.choice([0.0, 0.0, 0.5]), 'a': gen_nary(g, depth - 1, False)}, 'X': -fc.grid(g, 0.5, 3.0)}
+        return {'op': 'trans', 'a': gen_nary(g, depth - 1, ranged), 'X': fc.grid(g, 0.0, 1.5)}
     if op == 'pow':
         a = p_c07.gen_leaf(g, positive=True); a['kind'] = 'full'; b = p_c07.gen_leaf(g, positive=True); b['kind'] = 'full'
         return {'op': 'pow', 'a': a, 'b': b, 'nary': True}
@@ -557,7 +561,12 @@ def corpus():
     texts = [">1x 2", "as.buck 1.5.3", "as.buck 1-2", "a.5", "as.buck.5", "f(a,b)3", "sum(as.buck 1 2 3,>=1e0as.lj 1 2)", ">=.5e1e 1", "a 1e", "a 1e+", "a 1.e5", "a .", "a 1 .5",
              "a 1.5e3.2", ">> 1 a", ">=>1 a", "a>1b>=2c", "a(b)(c)", "a.b.", "a..b", "a 1_", "a 1._", ">1.a", ">1 .a", "a +1", "a + 1", "a 1,", "f(a 1,)", "f(,a)", "", " ", "a\r\n\t1",
              "as.buck 1000.0 0.3 32.0", " sum (\n as.buck\t1.5 -2e0 ,>=3 f)  "]
-    return [c1, c2, c3] + [{'kind': 'text', 'text': t, 'wellformed': None} for t in texts]
+    c4 = {'kind': 'sem', 'section': 'Pair', 'r': 1.0, 'ranged': True,
+          'tree': {'op': 'trans', 'X': -2.0, 'a': {'op': 'range', 'marker': '>=', 'start': 0.0, 'a': {'op': 'leaf', 'form': 'polynomial', 'params': [1.0, 2.0], 'kind': 'full'}}}}
+    # a shifted potential inside an inclusive range, evaluated AT the start of that range (the first row of a table that starts at r = 0)
+    c5 = {'kind': 'sem', 'section': 'Pair', 'r': 0.0, 'ranged': True,
+          'tree': {'op': 'range', 'marker': '>=', 'start': 0.0, 'a': {'op': 'trans', 'X': 1.5, 'a': {'op': 'leaf', 'form': 'bornmayer', 'params': [2.0, 0.5], 'kind': 'full'}}}}
+    return [c1, c2, c3, c4, c5] + [{'kind': 'text', 'text': t, 'wellformed': None} for t in texts]
 
 def correspond(ctx):
     g = ctx['rng']
@@ -708,10 +717,11 @@ def oracle(case):
         except Exception as e: return ['building %s in [%s] raised %s: %s' % (nary_text(t), case['section'], type(e).__name__, str(e)[:120])]
         # pointwise meaning from the leaves evaluated on their own
         import atsim.potentials.potentialforms as pfm
-        def mean(t, r):
+        def mean(t, r, in_range=False):
+            if not in_range and t['op'] != 'range' and r <= 0: return 0.0          # a definition without an explicit range is '>0 ...'
             if t['op'] == 'leaf': return getattr(pfm, t['form'])(*t['params'])(r)
             if t['op'] == 'trans': return mean(t['a'], r + t['X'])
-            if t['op'] == 'range': return mean(t['a'], r) if (r > t['start'] or (r == t['start'] and t['marker'] == '>=')) else 0.0
+            if t['op'] == 'range': return mean(t['a'], r, True) if (r > t['start'] or (r == t['start'] and t['marker'] == '>=')) else 0.0
             a, b = mean(t['a'], r), mean(t['b'], r)
             return a + b if t['op'] == 'plus' else (a * b if t['op'] == 'product' else a ** b)
         try: want = mean(t, r); got = f(r)
